@@ -1233,4 +1233,21 @@ def extract_default(
     dict(id="argparse-percent-escaped-before-wrap", kind=N, props=["C04", "C06"], expect="silent", edits=[("ast_utils.py",
          """                                (fill if word_wrap else identity)(doc).replace("%", "%%")""",
          """                                (fill if word_wrap else identity)(doc.replace("%", "%%"))""")]),
+    # ------------------------------------------------------------------ AST-LEAK (C03, C07)
+    dict(id="astleak-unquote-branch-first", kind=B, props=["C03", "C07"], expect="AST-LEAK", edits=[("docstring_parsers.py",
+         """    if isinstance(_param["default"], AST):
+        try:""", """    if needs_quoting(_param.get("typ")):
+        _param["default"] = unquote(_param["default"])
+    elif isinstance(_param["default"], AST):
+        try:""")]),
+    dict(id="astleak-node-branch-only-for-untyped", kind=B, props=["C03", "C07"], expect="AST-LEAK", edits=[("docstring_parsers.py",
+         """    if isinstance(_param["default"], AST):
+        try:""", """    if isinstance(_param["default"], AST) and _param.get("typ") is None:
+        try:""")]),
+    dict(id="astleak-early-return-for-strings", kind=N, props=["C03", "C07"], expect="silent", edits=[("docstring_parsers.py",
+         """    if isinstance(_param["default"], AST):
+        try:""", """    if isinstance(_param["default"], str) and not code_quoted(_param["default"]) and False:
+        return
+    if isinstance(_param["default"], AST):
+        try:""")]),
 ]
